@@ -21,6 +21,7 @@ impl Drop for Vl {
 trait Seed {
     fn mk(b: u8) -> Self;
     fn b(&self) -> u8;
+    fn set(&mut self, b: u8);
     const DROPS: bool;
 }
 impl Seed for Sd {
@@ -30,6 +31,9 @@ impl Seed for Sd {
     fn b(&self) -> u8 {
         self.0
     }
+    fn set(&mut self, b: u8) {
+        self.0 = b;
+    }
     const DROPS: bool = true;
 }
 impl Seed for u8 {
@@ -38,6 +42,9 @@ impl Seed for u8 {
     }
     fn b(&self) -> u8 {
         *self
+    }
+    fn set(&mut self, b: u8) {
+        *self = b;
     }
     const DROPS: bool = false;
 }
@@ -57,6 +64,7 @@ fn cell_steps<U: Seed>() {
     let mut calls = 0u8;
     let mut value = 0u8;
     let mut first_ref: *const Vl = std::ptr::null();
+    let mut seed_now = s; // every initialiser changes the seed it is given; the cell must keep those changes
     let mut k = 0;
     while k < 3 {
         assert!(c.get().is_some() == initialised, "C17 get reflects the state and never runs anything");
@@ -65,7 +73,9 @@ fn cell_steps<U: Seed>() {
         let before = calls;
         let r: Result<&Vl, u8> = c.get_or_try_init(|u| {
             calls += 1;
-            assert!(u.b() == s, "C17 a failed initialiser leaves the cell still owning its seed");
+            assert!(u.b() == seed_now, "C17 a failed initialiser leaves the cell still owning its seed (as that initialiser left it)");
+            seed_now = seed_now.wrapping_add(1);
+            u.set(seed_now);
             if ok { Ok(Vl(v)) } else { Err(v) }
         });
         if initialised {
